@@ -233,6 +233,22 @@ def run_round(case):
             got = {v.index for v in (finder.find_core(end_face) if which == "core" else finder.find_shell(end_face))}
             if got != want:
                 violations.append({"clause": f"round-finder-{which}", "coords": dict(case, end_face=end_face), "detail": f"found {sorted(got)}, geometric {which} of that face {sorted(want)}"})
+    # query - move - query on ONE finder: the vertices of a face are the same vertices after they were moved (what an
+    # optimizer does with them)
+    fnd = cb.RoundSolidFinder(mesh, shape)
+    for end_face in (False, True):
+        core0 = {v.index for v in fnd.find_core(end_face)}
+        shell0 = {v.index for v in fnd.find_shell(end_face)}
+        sk = shape.sketch_2 if end_face else shape.sketch_1
+        nrm = np.array(sk.normal) / np.linalg.norm(sk.normal)
+        for v in mesh.vertices:
+            if v.index in core0 or v.index in shell0:
+                v.translate(0.07 * nrm + 0.01 * np.array([0.3, -0.2, 0.1]))
+        execs += 2
+        core1 = {v.index for v in fnd.find_core(end_face)}
+        shell1 = {v.index for v in fnd.find_shell(end_face)}
+        if core1 != core0 or shell1 != shell0:
+            violations.append({"clause": "round-finder-after-move", "coords": dict(case, end_face=end_face), "detail": f"core {len(core0)} -> {len(core1)} vertices, rim {len(shell0)} -> {len(shell1)} after the vertices of the face were moved by 0.07"})
     return violations, execs
 
 
